@@ -1,5 +1,7 @@
-(** Model of src/epd2in13_v2/mod.rs — STUB, not yet transcribed. *)
-From Coq Require Import List NArith Bool.
+(** Model of src/epd2in13_v2/mod.rs (+ the value helpers of src/epd2in13_v2/command.rs).
+    One driver for two panels: cargo feature epd2in13_v2 ([f_v2 ft = true]) or epd2in13_v3; the
+    feature only selects the two LUT tables (70 vs 159 bytes). *)
+From Coq Require Import List NArith ZArith Bool.
 From EPD Require Import Iface Ops Drv.Luts.
 Import ListNotations.
 Open Scope N_scope.
@@ -8,11 +10,281 @@ Open Scope m_scope.
 Module Epd2in13_v2.
 Definition WIDTH : N := 122.
 Definition HEIGHT : N := 250.
+Definition IS_BUSY_LOW := false.
 
-Definition init : M unit := ret tt.
+(** crate::buffer_len *)
+Definition buffer_len (width height : N) : N := (width + 7) / 8 * height.
 
-Definition exec (k : N) (o : op) : option (M rval) := None.
+(** ** command.rs: value types *)
 
-Definition drv (ft : feat) : driver :=
-  mkDriver WIDTH HEIGHT true d0 init exec.
+(** bit_field::BitField on u8 *)
+Definition set_bit (x k : N) (b : bool) : N := if b then N.setbit x k else N.clearbit x k.
+(** [set_bits x lo hi v] = x.set_bits(lo..hi, v)  (v fits in every use) *)
+Definition set_bits (x lo hi v : N) : N :=
+  bor (N.ldiff x (shl (N.ones (hi - lo)) lo)) (shl v lo).
+
+(** DriverOutput::to_bytes *)
+Record DriverOutput := mkDriverOutput {
+  scan_is_linear : bool; scan_g0_is_first : bool; scan_dir_incr : bool; do_width : N (* u16 *) }.
+Definition DriverOutput_to_bytes (o : DriverOutput) : list N :=
+  [ u8 (do_width o); u8 (shr (do_width o) 8);
+    set_bit (set_bit (set_bit 0 0 (negb (scan_dir_incr o))) 1 (negb (scan_g0_is_first o)))
+            2 (negb (scan_is_linear o)) ].
+
+(** DisplayUpdateControl2 (a u8 newtype with builder methods) *)
+Definition DisplayUpdateControl2_new : N := 0x00.
+Definition disable_clock (v : N) : N := set_bit v 0 true.
+Definition disable_analog (v : N) : N := set_bit v 1 true.
+Definition display (v : N) : N := set_bit v 2 true.
+Definition load_lut (v : N) : N := set_bit v 4 true.
+Definition load_temp (v : N) : N := set_bit v 5 true.
+Definition enable_clock (v : N) : N := set_bit v 6 true.
+Definition enable_analog (v : N) : N := set_bit v 7 true.
+
+(** enum discriminants *)
+Definition XIncrYIncr : N := 0x3.      (* DataEntryModeIncr *)
+Definition XDir : N := 0x0.            (* DataEntryModeDir *)
+Definition Vbd_Gs : N := 0x0.          (* BorderWaveFormVbd *)
+Definition Fix_Vss : N := 0x0.         (* BorderWaveFormFixLevel *)
+Definition Gs_Lut1 : N := 0x1.         (* BorderWaveFormGs *)
+Definition Gs_Lut3 : N := 0x3.
+Definition DeepSleep_Mode1 : N := 0x01. (* DeepSleepMode *)
+
+(** BorderWaveForm::to_u8 *)
+Record BorderWaveForm := mkBorderWaveForm { vbd : N; fix_level : N; gs_trans : N }.
+Definition BorderWaveForm_to_u8 (b : BorderWaveForm) : N :=
+  set_bits (set_bits (set_bits 0 6 8 (vbd b)) 4 6 (fix_level b)) 0 2 (gs_trans b).
+
+(** trait I32Ext for i32 *)
+Definition zin (lo hi x : Z) : bool := (Z.leb lo x && Z.leb x hi)%bool.
+Definition zu8 (x : Z) : N := Z.to_N (Z.modulo x 256).       (* i32 as u8 *)
+
+Definition vcom (self : Z) : M N :=
+  assert (zin (-30) (-2) self) ;;
+  let u := match Z.opp self with
+           | 2%Z => 0x08 | 3%Z => 0x0B | 4%Z => 0x10 | 5%Z => 0x14 | 6%Z => 0x17
+           | 7%Z => 0x1B | 8%Z => 0x20 | 9%Z => 0x24 | 10%Z => 0x28 | 11%Z => 0x2C
+           | 12%Z => 0x2F | 13%Z => 0x34 | 14%Z => 0x37 | 15%Z => 0x3C | 16%Z => 0x40
+           | 17%Z => 0x44 | 18%Z => 0x48 | 19%Z => 0x4B | 20%Z => 0x50 | 21%Z => 0x54
+           | 22%Z => 0x58 | 23%Z => 0x5B | 24%Z => 0x5F | 25%Z => 0x64 | 26%Z => 0x68
+           | 27%Z => 0x6C | 28%Z => 0x6F | 29%Z => 0x73 | 30%Z => 0x78
+           | _ => 0
+           end in
+  ret u.
+
+Definition gate_driving_decivolt (self : Z) : M N :=
+  assert (zin 100 210 self && Z.eqb (Z.rem self 5) 0) ;;
+  ret (zu8 (Z.quot (self - 100) 5 + 0x03)).
+
+Definition source_driving_decivolt (self : Z) : M N :=
+  assert (zin 24 88 self || (Z.eqb (Z.rem self 5) 0 && zin 90 180 (Z.abs self))) ;;
+  if zin 24 88 self then ret (zu8 ((self - 24) + 0x8E))
+  else if zin 90 180 self then ret (zu8 (Z.quot (self - 90) 2 + 0x23))
+  else ret (zu8 (Z.quot (- self - 90) 5 * 2 + 0x1A)).
+
+(** ** mod.rs *)
+Section F.
+Variable ft : feat.
+
+(** constants.rs, selected by the cargo feature *)
+Definition LUT_FULL_UPDATE :=
+  if f_v2 ft then epd2in13_v2_LUT_FULL_UPDATE_v2 else epd2in13_v2_LUT_FULL_UPDATE_v3.
+Definition LUT_PARTIAL_UPDATE :=
+  if f_v2 ft then epd2in13_v2_LUT_PARTIAL_UPDATE_v2 else epd2in13_v2_LUT_PARTIAL_UPDATE_v3.
+
+Definition wait_until_idle : M unit := wait_idle IS_BUSY_LOW.
+
+Definition command (c : N) : M unit := cmd c.
+
+Definition set_gate_scan_start_position (start : N) : M unit :=
+  assert (start <=? 295) ;;
+  cmd_with_data 0x0F [u8 (band start 0xFF); u8 (band (shr start 8) 0x1)].
+
+Definition set_border_waveform (borderwaveform : BorderWaveForm) : M unit :=
+  cmd_with_data 0x3C [BorderWaveForm_to_u8 borderwaveform].
+
+Definition set_vcom_register (vcom : N) : M unit :=
+  cmd_with_data 0x2C [vcom].
+
+Definition set_gate_driving_voltage (voltage : N) : M unit :=
+  cmd_with_data 0x03 [voltage].
+
+Definition set_dummy_line_period (number_of_lines : N) : M unit :=
+  assert (number_of_lines <=? 127) ;;
+  cmd_with_data 0x3A [number_of_lines].
+
+Definition set_gate_line_width (width : N) : M unit :=
+  cmd_with_data 0x3B [band width 0x0F].
+
+Definition set_source_driving_voltage (vsh1 vsh2 vsl : N) : M unit :=
+  cmd_with_data 0x04 [vsh1; vsh2; vsl].
+
+Definition set_display_update_control_2 (value : N) : M unit :=
+  cmd_with_data 0x22 [value].
+
+Definition set_sleep_mode (mode : N) : M unit :=
+  cmd_with_data 0x10 [mode].
+
+Definition set_driver_output (output : DriverOutput) : M unit :=
+  cmd_with_data 0x01 (DriverOutput_to_bytes output).
+
+Definition set_data_entry_mode (counter_incr_mode counter_direction : N) : M unit :=
+  let mode := bor counter_incr_mode counter_direction in
+  cmd_with_data 0x11 [mode].
+
+Definition set_ram_area (start_x start_y end_x end_y : N) : M unit :=
+  cmd_with_data 0x44 [u8 (shr start_x 3); u8 (shr end_x 3)] ;;
+  cmd_with_data 0x45 [u8 start_y; u8 (shr start_y 8); u8 end_y; u8 (shr end_y 8)].
+
+Definition set_ram_address_counters (x y : N) : M unit :=
+  wait_until_idle ;;
+  cmd_with_data 0x4E [u8 (shr x 3)] ;;
+  cmd_with_data 0x4F [u8 y; u8 (shr y 8)].
+
+(** the [refresh] field is NOT updated by set_lut *)
+Definition set_lut (refresh_rate : option N) : M unit :=
+  let buffer := match refresh_rate with
+                | Some 1 => LUT_PARTIAL_UPDATE
+                | _ => LUT_FULL_UPDATE
+                end in
+  cmd_with_data 0x32 buffer.
+
+Definition init : M unit :=
+  reset 10000 10000 ;;
+  s <- get ;;
+  (if refresh s =? 1 then
+     v <- vcom (-9) ;;
+     set_vcom_register v ;;
+     wait_until_idle ;;
+     set_lut (Some (refresh s)) ;;
+     set_display_update_control_2 (enable_clock (enable_analog DisplayUpdateControl2_new)) ;;
+     command 0x20 ;;
+     wait_until_idle ;;
+     set_border_waveform (mkBorderWaveForm Vbd_Gs Fix_Vss Gs_Lut1)
+   else
+     wait_until_idle ;;
+     command 0x12 ;;
+     wait_until_idle ;;
+     set_driver_output (mkDriverOutput true true true (HEIGHT - 1)) ;;
+     set_dummy_line_period 0x30 ;;
+     set_gate_scan_start_position 0 ;;
+     set_data_entry_mode XIncrYIncr XDir ;;
+     set_ram_area 0 0 (WIDTH - 1) (HEIGHT - 1) ;;
+     set_ram_address_counters 0 0 ;;
+     set_border_waveform (mkBorderWaveForm Vbd_Gs Fix_Vss Gs_Lut3) ;;
+     v <- vcom (-21) ;;
+     set_vcom_register v ;;
+     g <- gate_driving_decivolt 190 ;;
+     set_gate_driving_voltage g ;;
+     vsh1 <- source_driving_decivolt 150 ;;
+     vsh2 <- source_driving_decivolt 50 ;;
+     vsl <- source_driving_decivolt (-150) ;;
+     set_source_driving_voltage vsh1 vsh2 vsl ;;
+     set_gate_line_width 10 ;;
+     set_lut (Some (refresh s))) ;;
+  wait_until_idle.
+
+Definition sleep : M unit :=
+  wait_until_idle ;;
+  set_display_update_control_2
+    (disable_clock (disable_analog (enable_clock (enable_analog DisplayUpdateControl2_new)))) ;;
+  command 0x20 ;;
+  s <- get ;;
+  set_sleep_mode (sleep_mode s).
+
+Definition update_frame (k len : N) : M unit :=
+  assert (len =? buffer_len WIDTH HEIGHT) ;;
+  set_ram_area 0 0 (WIDTH - 1) (HEIGHT - 1) ;;
+  set_ram_address_counters 0 0 ;;
+  cmd_with_data_e 0x24 (DArg k 0 0 len) ;;
+  s <- get ;;
+  when_ (refresh s =? 0)
+    (set_ram_area 0 0 (WIDTH - 1) (HEIGHT - 1) ;;
+     set_ram_address_counters 0 0 ;;
+     cmd_with_data_e 0x26 (DArg k 0 0 len)).
+
+Definition update_partial_frame (k len x y width height : N) : M unit :=
+  wh <- mul32 width height ;;
+  assert (wh / 8 =? len) ;;
+  s <- get ;;
+  assert (refresh s =? 0) ;;
+  ex <- add32 x width ;;
+  ey <- add32 y height ;;
+  set_ram_area x y ex ey ;;
+  set_ram_address_counters x y ;;
+  cmd_with_data_e 0x24 (DArg k 0 0 len) ;;
+  s <- get ;;
+  when_ (refresh s =? 0)
+    (ex <- add32 x width ;;
+     ey <- add32 y height ;;
+     set_ram_area x y ex ey ;;
+     set_ram_address_counters x y ;;
+     cmd_with_data_e 0x26 (DArg k 0 0 len)).
+
+Definition display_frame : M unit :=
+  s <- get ;;
+  (if refresh s =? 0 then
+     set_display_update_control_2
+       (disable_clock (disable_analog (display (enable_analog (enable_clock DisplayUpdateControl2_new)))))
+   else
+     set_display_update_control_2 (display DisplayUpdateControl2_new)) ;;
+  command 0x20 ;;
+  wait_until_idle.
+
+Definition set_partial_base_buffer (k len : N) : M unit :=
+  assert (buffer_len WIDTH HEIGHT =? len) ;;
+  set_ram_area 0 0 (WIDTH - 1) (HEIGHT - 1) ;;
+  set_ram_address_counters 0 0 ;;
+  cmd_with_data_e 0x26 (DArg k 0 0 len).
+
+Definition update_and_display_frame (k len : N) : M unit :=
+  update_frame k len ;;
+  display_frame ;;
+  s <- get ;;
+  when_ (refresh s =? 1) (set_partial_base_buffer k len).
+
+Definition clear_frame : M unit :=
+  s <- get ;;
+  let color := if bg s =? cWhite then 0xff else 0x00 in
+  set_ram_area 0 0 (WIDTH - 1) (HEIGHT - 1) ;;
+  set_ram_address_counters 0 0 ;;
+  command 0x24 ;;
+  data_x_times color (buffer_len WIDTH HEIGHT) ;;
+  s <- get ;;
+  when_ (refresh s =? 0)
+    (set_ram_area 0 0 (WIDTH - 1) (HEIGHT - 1) ;;
+     set_ram_address_counters 0 0 ;;
+     command 0x26 ;;
+     data_x_times color (buffer_len WIDTH HEIGHT)).
+
+Definition set_refresh (r : N) : M unit :=
+  s <- get ;;
+  when_ (negb (refresh s =? r))
+    (modify (Iface.set_refresh r) ;;
+     init).
+
+Definition exec (k : N) (o : op) : option (M rval) :=
+  match o with
+  | OSleep => unit_ sleep
+  | OWakeUp => unit_ init
+  | OSetBg c => unit_ (modify (set_bg c))
+  | OGetBg => Some (s <- get ;; ret (RColor (bg s)))
+  | OWidth => Some (ret (RNum WIDTH))
+  | OHeight => Some (ret (RNum HEIGHT))
+  | OUpdateFrame len => unit_ (update_frame k len)
+  | OUpdatePartial len x y w h => unit_ (update_partial_frame k len x y w h)
+  | ODisplay => unit_ display_frame
+  | OUpdateAndDisplay len => unit_ (update_and_display_frame k len)
+  | OClear => unit_ clear_frame
+  | OSetLut r => unit_ (set_lut r)
+  | OWaitIdle => unit_ wait_until_idle
+  | OSetPartialBase len => unit_ (set_partial_base_buffer k len)
+  | OSetRefresh r => unit_ (set_refresh r)
+  | _ => None
+  end.
+
+(** new: sleep_mode = DeepSleepMode::Mode1, background White, refresh Full; then init *)
+Definition drv : driver :=
+  mkDriver WIDTH HEIGHT true (mkD cWhite 0 false false DeepSleep_Mode1 None) init exec.
+End F.
 End Epd2in13_v2.
